@@ -240,11 +240,11 @@ def main(tier):
         if r.get("status") == "violation":
             pid = r["job"].split("|", 1)[1]
             if r.get("kind") == "schema":
-                key = f"schema|opset={r['opset']}|ops={','.join(r.get('ops') or [])}"
+                key = f"schema|ops={','.join(r.get('ops') or [])}"
             else:
                 key = f"value|{common.finding_pid(pid)}"
             w = r.get("witness") or {}
-            violations.append({"key": key, "what": f"{pid}: {w.get('why') or w.get('what')}", "payload": {"job": r["job"], "witness": w}})
+            violations.append({"key": key, "what": f"opset {r.get('opset')}: {pid}: {w.get('why') or w.get('what')}", "payload": {"job": r["job"], "witness": w}})
     cov = c01.evidence_coverage([r for r in results if r.get("stats")], tier)
     cov["opsets"] = opsets(tier)
     cov["value_defects_present_at_every_opset_reported_by_C01"] = sorted(not_opset_specific)
